@@ -222,8 +222,57 @@ CheckLife(t) ==
         ELSE IF drift # {} THEN "drift:C19 value satisfies the property but differs from the model formula at " \o msg(any(drift))
         ELSE "ok"
 
+\* ------------------------------------------------------------------ attribute life cycle (both classes)
+\* [k |-> "attr", variant, hist, ev]  a behaviour of RegLife replayed on the real class; ev[j] = one
+\* application: [i (actions of hist done before it), sch, pub (public attributes read back from the
+\* object at that moment: base [name, s, isT], duccio [t, f]), cost (what the model reports), cls, v,
+\* frac, fcls, fv (a FRESH object built from those attributes, same model), g (d value / d cost), gerr]
+CheckAttr(t) ==
+    LET K     == Len(t.ev)
+        base  == t.variant # "duccio"
+        real  == Has(t, "real") /\ t.real          \* real model: its costs are not the model's A / B vectors
+        E(j)  == t.ev[j]
+        sch(j) == Sched(E(j).sch)
+        pred(j) == AttrRun("live", AttrInit(t.variant), SubSeq(t.hist, 1, E(j).i), 1)
+        msg(j) == "application " \o ToString(j) \o " after " \o ToString(SubSeq(t.hist, 1, E(j).i))
+                     \o " on a " \o t.variant \o "-built object: public attributes " \o ToString(E(j).pub)
+                     \o ", model cost " \o ToString(E(j).cost) \o ", value " \o ToString(E(j).v)
+                     \o "/64 u" \o (IF Has(E(j), "g") THEN ", gradient " \o ToString(E(j).g) ELSE "")
+        bad1 == {j \in 1..K : E(j).cls # "fin" \/ E(j).gerr}
+        \* BaseRegularizer: strength x the named cost, gradient = strength (CURRENT attributes / cost)
+        bad2 == {j \in 1..K : base /\
+                    \/ E(j).frac \/ E(j).v # BaseVal(E(j).pub.s, E(j).cost[Idx(E(j).pub.name)]) * VU
+                    \/ (Has(E(j), "g") /\ (\/ E(j).g[Idx(E(j).pub.name)] # E(j).pub.s * VU
+                                              \/ E(j).g[3 - Idx(E(j).pub.name)] # 0))}
+        \* both: equal to a fresh object built from the current attributes
+        bad3 == {j \in 1..K : E(j).fcls # "fin" \/ E(j).v # E(j).fv}
+        \* DUCCIO: gradient positive exactly above target (positive strengths)
+        bad4 == {j \in 1..K : ~base /\ Has(E(j), "g") /\ \E i \in 1..2 :
+                    \/ E(j).g[i] < 0
+                    \/ (E(j).cost[i] > E(j).pub.t[i] /\ E(j).pub.f[i] > 0 /\ E(j).g[i] <= 0)
+                    \/ (E(j).cost[i] < E(j).pub.t[i] /\ E(j).g[i] # 0)}
+        drift == {j \in 1..K :
+                    IF base THEN ~(E(j).pub.name = pred(j).name /\ E(j).pub.s = pred(j).s /\ E(j).pub.isT = pred(j).isT
+                                   /\ (real \/ E(j).cost = pred(j).cost))
+                    ELSE \/ ~(E(j).pub.t = pred(j).t /\ E(j).pub.f = pred(j).f /\ (real \/ E(j).cost = pred(j).cost))
+                         \/ E(j).frac
+                         \/ E(j).v # PenU([i \in 1..2 |-> Fin(E(j).pub.f[i])], E(j).cost, E(j).pub.t, sch(j)[1], sch(j)[2]) * VU
+                         \/ \E i \in 1..2 : Has(E(j), "g") /\ E(j).cost[i] > E(j).pub.t[i] /\
+                               E(j).g[i] # EffU(E(j).pub.f[i], sch(j)[1], sch(j)[2]) * VU}
+        any(S) == CHOOSE x \in S : TRUE
+    IN  IF \E i \in DOMAIN t.hist : ~(t.hist[i] \in BaseActions \cup DuccioActions) THEN "trace: unknown attribute action"
+        ELSE IF bad1 # {} THEN "C19.attr: value not finite or not differentiable at " \o msg(any(bad1))
+        ELSE IF bad2 # {} THEN "C19.attr: BaseRegularizer does not return (current strength) x (current cost of the current cost_name) with gradient = strength at "
+                                   \o msg(any(bad2))
+        ELSE IF bad3 # {} THEN "C19.attr: value differs from the value " \o ToString(E(any(bad3)).fv)
+                                   \o " of a fresh regulariser built from the current public attributes at " \o msg(any(bad3))
+        ELSE IF bad4 # {} THEN "C19.attr: DUCCIO gradient w.r.t. a cost is not positive exactly above the current target at " \o msg(any(bad4))
+        ELSE IF drift # {} THEN "drift:C19 attribute life cycle: observation satisfies the property but differs from the model at " \o msg(any(drift))
+        ELSE "ok"
+
 Check(t) ==
     IF ~Has(t, "k") THEN "trace: missing kind"
+    ELSE IF t.k = "attr" THEN CheckAttr(t)
     ELSE IF t.k = "baseq" THEN CheckBaseQ(t)
     ELSE IF t.k = "life" THEN CheckLife(t)
     ELSE IF t.k = "ramp" THEN CheckRamp(t)
